@@ -710,6 +710,10 @@ func (f *fn) call(x *ast.CallExpr, pre *[]string) string {
 	case "strings.Map":
 		// strings.Map(<function literal>, s): the mapping is the parameter `sanitize` of the target, applied to s
 		return "(sanitize " + f.expr(x.Args[1], pre) + ")"
+	case "strings.ToLower":
+		// the case mapping is the parameter `strToLower` of the target
+		a := f.args(x, pre)
+		return "(strToLower " + a[0] + ")"
 	case "strings.TrimSpace":
 		a := f.args(x, pre)
 		return "(Go.trimSpace " + a[0] + ")"
